@@ -91,6 +91,11 @@ BODIES = [B(s) for s in [
     "{% macro m(x) %}{% if x %}<u>{{ x[0] }}{{ m(x[1:]) }}</u>{% endif %}{% endmacro %}{{ m([a, b, a]) }}",
     "{% macro m(x) %}{% set s %}{{ x }}{% endset %}{{ s }}{{ s ~ x }}{% endmacro %}{{ m(a) }}|{{ m(m(b)) }}",
     _M + "{% for v in [a, b] %}{{ m(v) }}{% endfor %}|{% for v in [m(a), m(b), a] %}{{ v }}{% endfor %}",
+    # ---- captured blocks passed through filters that return plain strings; separators that are themselves template output
+    "{% set x | squeeze %}<td> {{ a }}  </td>{% endset %}{{ x }}|{{ x ~ b }}|{{ [x, b]|join('-') }}",
+    "{% set x | wordwrap(200) %}<td>{{ a }} {{ b }}</td>{% endset %}{{ x }}|{% set y | squeeze | trim %} <i>{{ b }}</i> {% endset %}{{ y }}{{ y ~ x }}",
+    _M + "{% set sep %}<br>{{ b }}{% endset %}{{ [m(a), m(b)]|join(sep) }}|{{ [a, m(b)]|join(sep) }}|{{ [a, b]|join(sep) }}|{{ [m(a)]|join(m(b)) }}",
+    _M + "{% macro sp() %}<hr>{% endmacro %}{{ [m(a), b, m(b)]|join(sp()) }}|{{ [m(a), m(b)]|join(sp() ~ sp()) }}",
     # ---- call blocks
     "{% macro w() %}<div>{{ caller() }}</div>{% endmacro %}{% call w() %}{{ a }}{% endcall %}|{% call w() %}{% call w() %}{{ b }}{% endcall %}{% endcall %}",
     "{% macro w(x) %}<div>{{ caller(x, b) }}{{ caller(x, 'k') ~ x }}</div>{% endmacro %}{% call(p, q) w(a) %}{{ p }}:{{ q }}:{{ a }}{% endcall %}",
@@ -187,6 +192,7 @@ class Mode:
         self.pre, self.post, self.suffix, self.ctx, self.is_async = pre, post, suffix, ctx or {}, is_async
         self.env = Environment(autoescape=autoescape, enable_async=is_async, extensions=["jinja2.ext.i18n", "jinja2.ext.do"], cache_size=0)
         self.env.install_null_translations(newstyle=newstyle)
+        self.env.filters["squeeze"] = lambda v: " ".join(str(v).split())     # a user filter that returns a plain string
         hpre = pre.replace(" flag ", " gflag ")
         self.env.globals["gflag"] = self.ctx.get("flag", False)
         tpl = {}
